@@ -56,6 +56,7 @@ func TestWorker(t *testing.T) {
 	if *fProp == "" {
 		t.Skip("no -prop")
 	}
+	curT = t
 	def := registry[*fProp]
 	if def == nil {
 		t.Fatalf("unknown property %s", *fProp)
